@@ -37,6 +37,42 @@ Section value_ind2.
     end.
 End value_ind2.
 
+(* as value_ind2, with an induction hypothesis for the captured values of a closure *)
+Section value_ind3.
+  Variable P : value -> Prop.
+  Hypothesis HI : forall z, P (VInt z).
+  Hypothesis HF : forall f, P (VFloat f).
+  Hypothesis HS : forall s, P (VStr s).
+  Hypothesis HB : forall b, P (VBool b).
+  Hypothesis HL : forall l, Forall P l -> P (VList l).
+  Hypothesis HM : forall m, Forall (fun e => P (snd e)) m -> P (VMap m).
+  Hypothesis HC : forall ps b c s, Forall (fun e => P (snd e)) c -> P (VClo ps b c s).
+  Hypothesis HE : forall t, P (VErrText t).
+  Fixpoint value_ind3 (v : value) : P v :=
+    match v with
+    | VInt z => HI z
+    | VFloat f => HF f
+    | VStr s => HS s
+    | VBool b => HB b
+    | VList l =>
+        HL l ((fix go (l : list value) : Forall P l :=
+                 match l with [] => Forall_nil _ | x :: r => Forall_cons _ (value_ind3 x) (go r) end) l)
+    | VMap m =>
+        HM m ((fix go (m : list (str * value)) : Forall (fun e => P (snd e)) m :=
+                 match m with
+                 | [] => Forall_nil _
+                 | e :: r => Forall_cons (P := fun e => P (snd e)) e (value_ind3 (snd e)) (go r)
+                 end) m)
+    | VClo ps b c s =>
+        HC ps b c s ((fix go (m : list (name * value)) : Forall (fun e => P (snd e)) m :=
+                 match m with
+                 | [] => Forall_nil _
+                 | e :: r => Forall_cons (P := fun e => P (snd e)) e (value_ind3 (snd e)) (go r)
+                 end) c)
+    | VErrText t => HE t
+    end.
+End value_ind3.
+
 Section ast_ind2.
   Variable P : ast -> Prop.
   Hypothesis HConst : forall v, P (AConst v).
@@ -485,16 +521,87 @@ Proof. intros H; revert n; induction H; intros [|n]; simpl; auto. Qed.
 
 (* ---------- well-formed constants are related to themselves ---------- *)
 
+Lemma lookup_in x (c : list (name * value)) v : lookup x c = Some v -> In (x, v) c.
+Proof.
+  induction c as [|[y w] c IH]; simpl; [discriminate|].
+  destruct (str_eqb x y) eqn:E; [|auto]. intros H. inversion H; subst.
+  apply str_eqb_eq in E. subst. auto.
+Qed.
+
+Lemma mem_name_true_in x l : mem_name x l = true -> In x l.
+Proof.
+  induction l as [|y l IH]; simpl; [discriminate|]. intros H. apply orb_true_iff in H.
+  destruct H as [H|H]; [left; symmetry; apply str_eqb_eq; exact H|right; auto].
+Qed.
+
+Lemma in_mem_name_true x l : In x l -> mem_name x l = true.
+Proof.
+  induction l as [|y l IH]; simpl; [tauto|]. intros [->|H]; [rewrite str_eqb_refl; reflexivity|].
+  rewrite IH; auto. apply orb_true_r.
+Qed.
+
+(* cap_ok is about the bindings that lookup finds *)
+Lemma cap_ok_lookup (W : value -> Prop) c : forall seen x v,
+  cap_ok W c seen -> mem_name x seen = false -> lookup x c = Some v -> W v.
+Proof.
+  induction c as [|[y w] c IH]; intros seen x v H M L; simpl in *; [discriminate|].
+  destruct H as [H1 H2]. destruct (str_eqb x y) eqn:E.
+  - inversion L; subst. apply str_eqb_eq in E. subst y. destruct H1 as [H1|H1]; [congruence|exact H1].
+  - eapply IH; eauto. simpl. rewrite E, M. reflexivity.
+Qed.
+
+Lemma cap_ok_intro (W : value -> Prop) c : forall seen,
+  (forall x v, mem_name x seen = false -> lookup x c = Some v -> W v) -> cap_ok W c seen.
+Proof.
+  induction c as [|[y w] c IH]; intros seen H; simpl; [exact I|]. split.
+  - destruct (mem_name y seen) eqn:M; [left; reflexivity|right].
+    apply (H y w M). simpl. rewrite str_eqb_refl. reflexivity.
+  - apply IH. intros x v M L. simpl in M. apply orb_false_iff in M. destruct M as [M1 M2].
+    apply (H x v M2). simpl. rewrite M1. exact L.
+Qed.
+
 Lemma cwf_vrel : forall v, cwf v -> vrel v v.
 Proof.
-  induction v as [z|f|s|b|l IH|m IH|ps b c s|t] using value_ind2; intros H;
+  induction v as [z|f|s|b|l IH|m IH|ps b c s IH|t] using value_ind3; intros H;
     cbn [cwf] in H; try constructor.
   - induction IH as [|x l Hx Hl IHl]; auto. destruct H. constructor; auto.
   - induction IH as [|x l Hx Hl IHl]; auto. destruct H. constructor; auto.
-  - destruct H as (-> & -> & W). cbn. discriminate.
-  - destruct H as (-> & -> & W). auto.
-  - destruct H as (-> & -> & W). exact W.
+  - destruct H as (Hc & Hs & W). intros x v2 L. split.
+    + destruct Hs as [Hs|Hs]; [left; exact Hs|right]. intros E. subst x.
+      rewrite (in_mem_name_true s (map fst c)) in Hs; [discriminate|].
+      apply in_map_iff. exists (s, v2). split; auto. apply lookup_in; auto.
+    + exists v2. split; auto.
+      rewrite Forall_forall in IH. apply (IH (x, v2) (lookup_in _ _ _ L)).
+      eapply cap_ok_lookup; eauto.
+  - auto.
+  - destruct H as (Hc & Hs & W). exact W.
 Qed.
+
+(* the generator's side of two related values is a well-formed constant *)
+Lemma vrel_cwf_r : forall v2 v1, vrel v1 v2 -> cwf v2.
+Proof.
+  induction v2 as [z|f|s|b|l IH|m IH|ps b c s IH|t] using value_ind3; intros v1 H;
+    inversion H; subst; cbn [cwf]; auto.
+  - clear H. match goal with HF : Forall2 vrel _ l |- _ => induction HF as [|x y l1 l2 Hxy Hl IHl] end; auto.
+    inversion IH; subst. split; [eauto|apply IHl; assumption].
+  - clear H. match goal with HF : Forall2 _ _ m |- _ => induction HF as [|x y l1 l2 [Hk Hxy] Hl IHl] end; auto.
+    inversion IH; subst. split; [eauto|apply IHl; assumption].
+  - match goal with
+    | HA : forall x v2, lookup x c = Some v2 -> _, HB : s = [] \/ s = _ |- _ =>
+        rename HA into HA0; rename HB into HB0
+    end.
+    split; [|split; auto].
+    + apply cap_ok_intro. intros x v _ L. destruct (HA0 x v L) as [_ (w & _ & Hw)].
+      rewrite Forall_forall in IH. apply (IH (x, v) (lookup_in _ _ _ L) w Hw).
+    + destruct s as [|c0 s']; [left; reflexivity|right].
+      destruct (mem_name (c0 :: s') (map fst c)) eqn:M; [|reflexivity]. exfalso.
+      apply mem_name_true_in in M. destruct (lookup_in_some _ _ M) as [w L].
+      destruct (HA0 _ _ L) as [[E|E] _]; destruct HB0 as [B|B]; try discriminate; subst; try discriminate.
+      apply E. reflexivity.
+Qed.
+
+Lemma vrel_refl_r v1 v2 : vrel v1 v2 -> vrel v2 v2.
+Proof. intros H. apply cwf_vrel. eapply vrel_cwf_r; eauto. Qed.
 
 Lemma fo_cwf : forall v, fo v = true -> cwf v.
 Proof.
